@@ -141,8 +141,7 @@ fn c11_hll_list_roundtrip_layout() {
         i += 1;
     }
     let r = HllSketch::deserialize(&bytes);
-    assert!(r.is_ok(), "own image rejected");
-    let mut g = r.unwrap();
+    let mut g = crate::verif_kani_common::expect_ok(r, "own image rejected");
     assert!(g.lg_config_k() == lg_k && g.target_type() == t);
     assert!(g == s, "deserialized list differs from the original");
     // behaves identically afterwards: one more coupon
@@ -229,8 +228,7 @@ fn c11_hll_array68_roundtrip_layout() {
         i += 1;
     }
     let g8 = HllSketch::deserialize(&b8);
-    assert!(g8.is_ok(), "own Hll8 image rejected");
-    let g8 = g8.unwrap();
+    let g8 = crate::verif_kani_common::expect_ok(g8, "own Hll8 image rejected");
     assert!(g8 == s8, "Hll8 round trip changed the sketch");
     // the compact-flag variant (C13)
     let mut b8c = [0u8; 56];
@@ -241,8 +239,7 @@ fn c11_hll_array68_roundtrip_layout() {
     }
     b8c[5] |= 8;
     let g8c = HllSketch::deserialize(&b8c);
-    assert!(g8c.is_ok(), "compact-flag Hll8 image rejected");
-    let g8c = g8c.unwrap();
+    let g8c = crate::verif_kani_common::expect_ok(g8c, "compact-flag Hll8 image rejected");
     assert!(g8c == s8, "compact-flag Hll8 image decoded to different registers / estimator");
     // ---- Hll6
     let a6 = v6::array6_from_regs(4, &regs, e.clone());
@@ -257,8 +254,7 @@ fn c11_hll_array68_roundtrip_layout() {
         i += 1;
     }
     let g6 = HllSketch::deserialize(&b6);
-    assert!(g6.is_ok(), "own Hll6 image rejected");
-    let g6 = g6.unwrap();
+    let g6 = crate::verif_kani_common::expect_ok(g6, "own Hll6 image rejected");
     assert!(g6 == s6, "Hll6 round trip changed the sketch");
     let mut b6c = [0u8; 53];
     let mut i = 0;
@@ -268,8 +264,7 @@ fn c11_hll_array68_roundtrip_layout() {
     }
     b6c[5] |= 8;
     let g6c = HllSketch::deserialize(&b6c);
-    assert!(g6c.is_ok() , "compact-flag Hll6 image rejected");
-    let g6c = g6c.unwrap();
+    let g6c = crate::verif_kani_common::expect_ok(g6c, "compact-flag Hll6 image rejected");
     assert!(g6c == s6, "compact-flag Hll6 image decoded to different registers");
     kani::cover!(zeros == 3 && e.is_out_of_order());
     core::mem::forget((s8, s6, g8, g8c, g6, g6c, b8, b6));
